@@ -160,6 +160,9 @@ def check_exits(ex, contract, finfo, outs):
                     if ex.w.exc_is_sub(o.exc, a):
                         key = a
                 if key:
+                    if o.val is not None:
+                        o.st.env = dict(o.st.env)
+                        o.st.env['exc'] = o.val          # the exception object, for ensures_raise clauses
                     for j, cl in enumerate(contract.ensures_raise[key]):
                         ex.prove('post-raise/%s/%d' % (key.split('.')[-1], j), o.st.pc, ex.spec(cl, o.st, old=ex.entry), detail=str(cl))
                 check_frame(ex, contract, o.st)
